@@ -973,6 +973,45 @@ def asset_overwrite_back(seed):
     return '\n'.join(lines) + '\n', dict(enabled={p: (1, 1, 1) for p in range(n)})
 
 
+def asset_overtake(seed):
+    """C06 "every timing of the asynchronous HTTP download relative to frames and to further operations":
+    a peer publishes a LARGE audio source (48 MB: the transfer takes many frames) and, while the others
+    are still downloading it, overwrites it once or twice with small ones (whose downloads arrive first):
+    everybody must end with the last content. The publisher is the host or a client (relayed)."""
+    r = random.Random(seed)
+    n = r.choice([2, 2, 3])
+    lines = _header(r, n, [0], v6=(r.random() < 0.15))
+    for p in range(n):
+        lines.append('OP %d switches 1 1 1' % p)
+        lines.append('OP %d setup' % p)
+    lines.append('ROUND %d' % r.randint(6, 9))
+    lines.append('DRAIN 40')
+    pub = r.choice(range(n))
+    aid = 9000 + r.randint(0, 9)
+    val = 800
+
+    def relay():
+        # the announcement leaves the publisher in its 2nd frame (asset events are read one frame later);
+        # a client's announcement passes through the host
+        lines.append('FRAME %d 2' % pub)
+        if pub != 0:
+            lines.append('FRAME 0 1')
+        for q in range(n):
+            if q != pub:
+                lines.append('FRAME %d %d' % (q, r.randint(1, 2)))
+    lines.append('OP %d addasset 3 %d %d' % (pub, aid, 5000000 + r.randint(1, 999)))
+    relay()
+    for _ in range(r.randint(1, 2)):
+        val += 1
+        lines.append('OP %d addasset 3 %d %d' % (pub, aid, val))
+        relay()
+    lines.append('SLEEP 300')
+    lines.append('DRAIN 80')
+    lines.append('SLEEP 300')
+    lines.append('DRAIN 60')
+    return '\n'.join(lines) + '\n', dict(enabled={p: (1, 1, 1) for p in range(n)})
+
+
 def companions_present(seed):
     """C17 "leaves already present companions untouched": a replica carries a GlobalTransform of the
     application's own (written locally on the receiving peer, not synchronized) BEFORE the Transform
